@@ -91,7 +91,7 @@ def validate(tier, seed):
     warnings.simplefilter('ignore')
     import yaml
     uses = []
-    for f in sorted(glob.glob('/repo/pgradd/data/*/scheme.yaml')):
+    for f in sorted(glob.glob(__import__('vf.symkit').symkit.REPO + '/pgradd/data/*/scheme.yaml')):
         data = yaml.safe_load(open(f))
         for sect in ('patterns', 'other_descriptors'):
             for p in data.get(sect) or []:
